@@ -38,6 +38,7 @@ type elem struct {
 	Src  int    `json:"src"`
 	Dst  int    `json:"dst"`
 	DObj int    `json:"dobj"`
+	SObj int    `json:"sobj"`
 }
 type ocase struct {
 	Order     string    `json:"order"`
@@ -77,7 +78,7 @@ func sortReal(order string, es []elem) []string {
 		em := graph.EdgeMap{}
 		back := map[*graph.Edge]string{}
 		for _, e := range es {
-			ed := &graph.Edge{Src: &graph.Node{Info: graph.NodeInfo{Name: fmt.Sprintf("n%d", e.Src)}},
+			ed := &graph.Edge{Src: &graph.Node{Info: graph.NodeInfo{Name: fmt.Sprintf("n%d", e.Src), Objfile: fmt.Sprintf("o%d", e.SObj)}},
 				Dest: &graph.Node{Info: graph.NodeInfo{Name: fmt.Sprintf("n%d", e.Dst), Objfile: fmt.Sprintf("o%d", e.DObj)}}, Weight: e.W}
 			em[&graph.Node{}] = ed
 			back[ed] = key(e)
@@ -276,6 +277,42 @@ func (f fakeFile) Symbols(r *regexp.Regexp, addr uint64) ([]*plugin.Sym, error) 
 	return out, nil
 }
 
+// trimmed graphs with several residual edges into one node whose sources call each other: which of them is
+// "redundant" depends on the order in which they are examined, so that order must not come from a map
+func redundantEdgesPart(reps int) {
+	m := vlib.AMap{Build: "B01", File: "bin1", Start: 16, Size: 8}
+	loc := func(name string, rel int64) vlib.ALoc {
+		return vlib.ALoc{Map: m, Rel: rel, Lines: []vlib.ALine{{Fn: fn(name, name+".c"), Line: 1}}}
+	}
+	a, b, n, x1, x2, x3, c := loc("a", 1), loc("b", 2), loc("n", 3), loc("x1", 4), loc("x2", 5), loc("x3", 6), loc("c", 7)
+	ap := vlib.AProf{ST: []vlib.AVT{{T: "samples", U: "count"}}, Samples: []vlib.ASample{
+		{Locs: []vlib.ALoc{n, x1, a, b}, Vals: []int64{10}}, // b > a > x1 > n
+		{Locs: []vlib.ALoc{n, x2, b, a}, Vals: []int64{5}},  // a > b > x2 > n
+		{Locs: []vlib.ALoc{n, x3, c, a, c}, Vals: []int64{7}},
+		{Locs: []vlib.ALoc{n, x3, a, c}, Vals: []int64{7}},
+		{Locs: []vlib.ALoc{a}, Vals: []int64{100}}, {Locs: []vlib.ALoc{b}, Vals: []int64{100}}, {Locs: []vlib.ALoc{c}, Vals: []int64{90}},
+	}}
+	p := vlib.NewConc(0).Profile(ap)
+	for _, f := range [][]string{{"-dot", "-nodecount=4"}, {"-dot", "-nodecount=3"}, {"-dot", "-nodefraction=0.06"}, {"-tree", "-nodecount=4"}} {
+		var first []byte
+		for k := 0; k < reps*3; k++ {
+			args := append(append([]string{"-functions", "-flat"}, f...), "-edgefraction=0", "-output=out", "src")
+			res := vdrv.Run(vdrv.Opts{Args: args, Fetch: func(string) (*profile.Profile, error) { return p.Copy(), nil }})
+			if res.Err != nil || res.Panic != nil {
+				run.Violate("pipeline", "pipeline-error:"+strings.Join(f, ""), fmt.Sprint(res.Err, res.Panic), ap, nil)
+				break
+			}
+			run.Count("redundant" + strings.Join(f, ""))
+			if first == nil {
+				first = res.Files["out"]
+			} else if !bytes.Equal(first, res.Files["out"]) {
+				run.Violate("pipeline", "nondeterministic-output:trimmed-"+strings.TrimLeft(f[0], "-"), fmt.Sprintf("run %d of %v differs from run 0:\n%s\nvs\n%s", k, f, clip(first), clip(res.Files["out"])), ap, nil)
+				break
+			}
+		}
+	}
+}
+
 func disasmPart(reps int) {
 	m := &profile.Mapping{ID: 1, Start: 0x1000, Limit: 0x2000, File: "bin1"}
 	p := &profile.Profile{SampleType: []*profile.ValueType{{Type: "samples", Unit: "count"}}, PeriodType: &profile.ValueType{Type: "cpu", Unit: "ns"}, Period: 1,
@@ -365,6 +402,7 @@ func pipeline(reps int, dump string) {
 			}
 		}
 	}
+	redundantEdgesPart(reps)
 	disasmPart(reps)
 	// fetch completion order: three sources finishing in opposite orders
 	delays := [][]time.Duration{{0, 15 * time.Millisecond, 30 * time.Millisecond}, {30 * time.Millisecond, 15 * time.Millisecond, 0}}
